@@ -278,6 +278,10 @@ impl Run {
 
     /// True when an *open* known finding asks the generators to leave out class `switch`.
     pub fn excluded(&self, switch: &str) -> bool {
+        // replays always go through the full oracle
+        if self.is_replay() {
+            return false;
+        }
         self.known
             .iter()
             .any(|k| k.status == "open" && k.excluded_by.as_deref() == Some(switch))
@@ -598,7 +602,7 @@ where
     let cfg = Config {
         cases: u32::try_from(cases).unwrap_or(u32::MAX),
         failure_persistence: None,
-        max_shrink_iters: 4000,
+        max_shrink_iters: 1500,
         max_global_rejects: 1_000_000,
         max_local_rejects: 1_000_000,
         verbose: 0,
